@@ -1,4 +1,5 @@
 """C05 Reference counts / GC — structural clause: edge linearity (E-LIN)."""
+import ewho
 import witness
 import ecanon
 import efreelist
@@ -32,5 +33,10 @@ def run(ctx):
                     "Clone, Borrowed cannot outlive its edge, edges are branded by the manager's invariant 'id and cannot "
                     "escape the locking closure.")
         witness.run(ctx)
+    ctx.explain("E-WHO: the operations that temporarily break the level invariants (swap, take, insert_unchecked, "
+                "get_or_insert_unchecked, set_child, set_level) are called only from oxidd-reorder; node-removal "
+                "primitives only from gc / try_remove_node / level views, gated by reorder_gc_prepared / "
+                "allow_node_removal; level_swap uses the unchecked insertions only.")
+    ewho.run(ctx, F)
     ctx.not_decided = ("exactness of counts over histories; the unsafe internals of the managers; "
                        "capacity restoration after gc")
